@@ -51,17 +51,34 @@ package http
 //@ iface (github.com/drand/drand/v2/common/client.Result).GetRound(r) (n)
 //@   trusted accessor
 //@   modifies nothing
+//@   ensures n == roundOf(r)
 //@ extern github.com/nikkolasg/hexjson.Marshal(v) (b, err)
-//@   trusted JSON encoding
+//@   trusted JSON encoding (byte fields as hex): a function of the value
 //@   modifies nothing
+//@   ensures b == jsonOf(v)
 
+// roundOf(r): the round a client result reports; jsonOf(v): its JSON encoding
+//@ ghost roundOf(iface) int
+//@ ghost jsonOf(iface) bytes
+
+// C01 (HTTP), monitor invariant of bh.pendingLk: requests wait only while the next round is known (latestRound != 0);
+// a request joins only for latestRound+1 (getRand); whenever latestRound moves the list of waiters is emptied in the
+// same critical section, and what the waiters are handed is the result of round latestRound+1 or nothing.
 //@ func (*DrandHandler).watchWithTimeout(h, bh)
-//@   props C14
-//@   flags lockcheck
+//@   props C14 C01
+//@   flags lockcheck interleaved
+//@   rely bh.latestRound, bh.pending
 //@   requires bh != nil
+//@   monitor bh.pendingLk: invariant [C01:requests-wait-only-while-the-next-round-is-known] len(bh.pending) == 0 || bh.latestRound != 0
+//@   call GetRound#2: assert [C01:waiters-receive-the-round-they-wait-for-or-nothing] len(b) == 0 || bh.latestRound == 0 || roundOf(next) == bh.latestRound + 1 || (bh.latestRound == 18446744073709551615 && roundOf(next) == 0)
+//@   call send#3: assert [C01:waiters-receive-the-encoded-result-of-the-stream-or-nothing] len(val) == 0 || val == jsonOf(next)
+//@   call Unlock#1: assert [C01:the-waiter-list-is-emptied-whenever-the-latest-round-moves] len(bh.pending) == 0
 //@   loop 0: invariant [C14:watch-loop-holds-no-lock-between-rounds] nowlocks() && norlocks()
-//@   loop 1: invariant [C14:waiters-are-notified-while-the-pending-lock-is-held] held(bh.pendingLk)
-//@   call send#2: assert [C14:waiters-are-notified-while-the-pending-lock-is-held] held(bh.pendingLk)
+//@   loop 1: invariant [C14:waiters-are-released-while-the-pending-lock-is-held] held(bh.pendingLk) && bh.latestRound == 0 && len(bh.pending) == 0
+//@   loop 2: invariant [C14:waiters-are-notified-while-the-pending-lock-is-held] held(bh.pendingLk) && len(bh.pending) == 0
+//@   call send#1: assert [C14:waiters-are-released-while-the-pending-lock-is-held] held(bh.pendingLk)
+//@   call send#3: assert [C14:waiters-are-notified-while-the-pending-lock-is-held] held(bh.pendingLk)
+//@   call send#1: assert [C01:waiters-of-a-broken-stream-are-released-empty-handed] len(val) == 0
 
 // ---- C01 (HTTP): a request waits for the watch loop only for the round the loop delivers next -----------------------
 // Monitor invariant of bh.pendingLk: every channel in bh.pending belongs to a request for round bh.latestRound+1; the
@@ -77,5 +94,6 @@ package http
 //@   props C01 C14
 //@   flags lockcheck interleaved
 //@   rely bh.latestRound, bh.pending
+//@   monitor bh.pendingLk: invariant [C01:requests-wait-only-while-the-next-round-is-known] len(bh.pending) == 0 || bh.latestRound != 0
 //@   requires h.log != nil && info != nil && common.validPeriod(info.Period) && common.validGenesis(info.GenesisTime)
 //@   call append#0: assert [C01:a-request-joins-the-waiters-only-for-the-round-delivered-next] held(bh.pendingLk) && bh.latestRound != 0 && (bh.latestRound + 1 == round || (bh.latestRound == 18446744073709551615 && round == 0))
